@@ -44,7 +44,8 @@ BAD_VALUES = ["rename = 1", "rename", "rename(x)", "default = 1", "default(x)", 
               "skip = 1", 'skip = "yes"', "skip(x)", "multiple = 2", "flatten = true", "flatten(x)", 'map = 1', "and_then", 'rename_all = "bogus"',
               "rename_all", "rename_all = 1", 'bound = "T:::"', "bound = 1", "allow_unknown_fields = 1", "attributes = 1", "attributes(1)",
               "attributes(a = 1)", "forward_attrs = 1", "forward_attrs(1)", "supports(bogus)", "supports(struct_struct_named)",
-              "supports(1)", "supports = 1", "supports(any::x)", "from_word", "from_word = 1", "from_none = 1", "word = 1", "word(x)",
+              "supports(1)", "supports = 1", "supports(any::x)", "supports(struct_named::bogus)", "supports(::any)", "supports(named::x)",
+              "supports(struct_bogus, struct_named, enum_bogus)", "supports(bogus1, named, bogus2)", "supports(1, any::x, enum_bogus)", "from_word", "from_word = 1", "from_none = 1", "word = 1", "word(x)",
               # every option written as an EMPTY list
               "flatten()", "skip()", "multiple()", "default()", "rename()", "with()", "map()", "and_then()", "word()",
               "allow_unknown_fields()", "rename_all()", "from_ident()", "bound()", "from_word()", "from_none()"]
